@@ -20,11 +20,15 @@ use std::collections::{BTreeMap, HashMap};
 // ------------------------------------------------------------------ PRNG
 pub struct G {
 	s: u64,
+	/// 0: random; 1: every integer is the maximum of its Rust type (of the Avro type for u64 / usize);
+	/// 2: every integer is the minimum of its Rust type
+	pub extreme: u8,
 }
 impl G {
 	pub fn new(seed: u64) -> Self {
 		G {
 			s: seed.wrapping_mul(0x9E3779B97F4A7C15) ^ 0xD1B54A32D192ED03,
+			extreme: 0,
 		}
 	}
 	pub fn next(&mut self) -> u64 {
@@ -78,6 +82,11 @@ macro_rules! gen_int {
 	($($t:ty),*) => {$(
 		impl Gen for $t {
 			fn gen(g: &mut G, _d: u32) -> Self {
+				match g.extreme {
+					1 => return <$t>::MAX,
+					2 => return <$t>::MIN,
+					_ => {}
+				}
 				match g.below(12) {
 					0 => <$t>::MIN,
 					1 => <$t>::MAX,
@@ -101,6 +110,11 @@ gen_int!(i8, i16, i32, i64, u16, u32);
 // unsigned integers within the range of the Avro type they map to (long)
 impl Gen for u64 {
 	fn gen(g: &mut G, _d: u32) -> Self {
+		match g.extreme {
+			1 => return i64::MAX as u64,
+			2 => return 0,
+			_ => {}
+		}
 		match g.below(8) {
 			0 => 0,
 			1 => i64::MAX as u64,
@@ -507,8 +521,11 @@ where
 	let mut count = 0;
 	for i in 0..n {
 		// the first values are the shallow ones (depth 0: every collection empty, every option None)
-		let d = if i == 0 { 0 } else if i == 1 { 1 } else { 1 + (g.below(DEPTH as u64) as u32) };
+		let d = if i == 0 { 0 } else if i <= 3 { 1 } else { 1 + (g.below(DEPTH as u64) as u32) };
+		// values 2 and 3: every integer (also under a logical-type attribute) at the maximum / minimum of its Rust type
+		g.extreme = if i == 2 { 1 } else if i == 3 { 2 } else { 0 };
 		let v = T::gen(g, d);
+		g.extreme = 0;
 		match check_value(&v, &schema) {
 			Ok(()) => count += 1,
 			Err(m) => {
